@@ -6,6 +6,7 @@ import contextlib
 import inspect
 import os
 import re
+import unicodedata
 from collections import namedtuple
 from collections.abc import Callable
 from copy import copy
@@ -302,7 +303,16 @@ class Style(str):
             # NOTE Meant for Style.parse() not for f-strings
             text = f"f{{{self.value}:{self._fmt}}}"
         text = self.apply_style(text, force=True)
-        return tty_escape(repr(text)[1:-1])
+        # NOTE: only control characters and backslashes are written as escapes:
+        #   repr() would also escape spaces like U+00A0, which from_raw() keeps as text
+        return tty_escape(
+            ''.join(
+                repr(c)[1:-1]
+                if c == '\\' or unicodedata.category(c) in {'Cc', 'Cs'}
+                else c
+                for c in text
+            ),
+        )
 
     def __len__(self) -> int:
         return visual_len(str(self))
